@@ -471,6 +471,7 @@ class HttpParser(abc.ABC, Generic[_MsgT]):
                                 max_field_size=self.max_field_size,
                                 max_trailers=max_trailers,
                                 limit=self._limit,
+                                payload_exception=self.payload_exception,
                             )
                             if not payload_parser.done:
                                 self._payload_parser = payload_parser
@@ -498,6 +499,7 @@ class HttpParser(abc.ABC, Generic[_MsgT]):
                                 max_field_size=self.max_field_size,
                                 max_trailers=max_trailers,
                                 limit=self._limit,
+                                payload_exception=self.payload_exception,
                             )
                         elif not empty_body and length is None and self.read_until_eof:
                             payload = StreamReader(
@@ -521,6 +523,7 @@ class HttpParser(abc.ABC, Generic[_MsgT]):
                                 max_field_size=self.max_field_size,
                                 max_trailers=max_trailers,
                                 limit=self._limit,
+                                payload_exception=self.payload_exception,
                             )
                             if not payload_parser.done:
                                 self._payload_parser = payload_parser
@@ -899,9 +902,11 @@ class HttpPayloadParser:
         max_field_size: int = 8190,
         max_trailers: int = 128,
         limit: int = DEFAULT_CHUNK_SIZE,
+        payload_exception: type[BaseException] | None = None,
     ) -> None:
         self._length = 0
         self._paused = False
+        self._payload_exception = payload_exception
         self._type = ParseState.PARSE_UNTIL_EOF
         self._chunk = ChunkState.PARSE_CHUNKED_SIZE
         self._chunk_size = 0
@@ -942,6 +947,14 @@ class HttpPayloadParser:
                 self.done = True
 
         self.payload = real_payload
+
+    def _set_payload_exception(self, exc: BaseException) -> None:
+        # A reader may already be waiting for body data: it has to be woken
+        # with the same exception type it would find on the payload later.
+        payload_exc = exc
+        if self._payload_exception is not None:
+            payload_exc = self._payload_exception(str(exc))
+        set_exception(self.payload, payload_exc, exc)
 
     def pause_reading(self) -> None:
         self._paused = True
@@ -1046,7 +1059,7 @@ class HttpPayloadParser:
                                 exc = TransferEncodingError(
                                     f"Unexpected LF in chunk-extension: {ext!r}"
                                 )
-                                set_exception(self.payload, exc)
+                                self._set_payload_exception(exc)
                                 raise exc
                         else:
                             size_b = chunk[:pos]
@@ -1058,7 +1071,7 @@ class HttpPayloadParser:
                             exc = TransferEncodingError(
                                 chunk[:pos].decode("ascii", "surrogateescape")
                             )
-                            set_exception(self.payload, exc)
+                            self._set_payload_exception(exc)
                             raise exc
                         size = int(bytes(size_b), 16)
 
@@ -1076,7 +1089,7 @@ class HttpPayloadParser:
                             exc = TransferEncodingError(
                                 "Bad chunk-size line ending, expected CRLF"
                             )
-                            set_exception(self.payload, exc)
+                            self._set_payload_exception(exc)
                             raise exc
                         self._chunk_tail = chunk
                         self._paused = False
@@ -1114,7 +1127,7 @@ class HttpPayloadParser:
                         exc = TransferEncodingError(
                             "Chunk size mismatch: expected CRLF after chunk data"
                         )
-                        set_exception(self.payload, exc)
+                        self._set_payload_exception(exc)
                         raise exc
                     else:
                         self._chunk_tail = chunk
@@ -1128,7 +1141,7 @@ class HttpPayloadParser:
                             exc = TransferEncodingError(
                                 "Bad trailer line ending, expected CRLF"
                             )
-                            set_exception(self.payload, exc)
+                            self._set_payload_exception(exc)
                             raise exc
                         self._chunk_tail = chunk
                         self._paused = False
